@@ -3,27 +3,36 @@
    Sync_*.cfg files (no function-valued constants, no VIEW, no CONSTRAINT: all bounds are action
    guards so that the liveness check cannot miss a non-progress cycle).
 
-   Configurations (measured on this machine, 4-6 busy cores):
-     Sync_quick.cfg      repaired, chain <= 3, 1 source step, 1 fault, safety + liveness 291 164 states
-     Sync_restart.cfg    repaired, one stop/restart of the node, safety + liveness + RestartIsNoOp 135 421 states
-     Sync_h13.cfg        as coded for H13: RevertsJustified fails (29-35 step counterexample) ~17 000 states
+   Configurations (distinct states as measured with the class dimension; ClassA / ClassB / SierraSet per configuration
+   so that the one reorg block re-declares, uses or never mentions a class, at the tip, below it and in a new genesis):
+     Sync_quick.cfg      repaired, chain <= 3, 1 source step, 1 fault, safety + liveness        306 311 states
+     Sync_restart.cfg    repaired, one stop/restart of the node, safety + liveness + RestartIsNoOp 145 092 states
+     Sync_h13.cfg        as coded for H13: RevertsJustified fails (28-35 step counterexample) ~17 000 states
      Sync_rvv.cfg        as coded for the unverified remote header: RevertsJustified fails
      Sync_underflow.cfg  as coded for the uint64 underflow: EventuallyConverges fails (lasso)
-     Sync_live4.cfg      repaired, chain <= 4, safety + liveness                       519 059 states
-     Sync_fine.cfg       repaired, Fine = TRUE (the model the traces are validated against) 717 215 states
-     Sync_lagw.cfg       repaired, Lag = W = 2 as in the code, chain 5, safety         2 907 211 states
-     Sync_faults2.cfg    repaired, chain <= 4, 1 source step, 2 faults, safety         2 523 682 states
-     Sync_thorough.cfg   repaired, chain <= 4, 2 source steps, 1 fault, safety         8 628 206 states
+     Sync_live4.cfg      repaired, chain <= 4, safety + liveness                         631 626 states
+     Sync_fine.cfg       repaired, Fine = TRUE (the model the traces are validated against) 778 830 states
+     Sync_lagw.cfg       repaired, Lag = W = 2 as in the code, chain 5, safety         3 906 467 states
+     Sync_faults2.cfg    repaired, chain <= 4, 1 source step, 2 faults, safety         2 842 161 states
+     Sync_thorough.cfg   repaired, chain <= 4, 2 source steps, 1 fault, safety        10 191 143 states
      Sync_x_emptyroot.cfg  EXPECTED VIOLATION: state-root checks of Store skipped for blocks without diff entries
                          (EmptyDiff = {2}): StoredOnlyVerified fails, 15-step counterexample ("root" forgery of block 2
                          stored)                                                        ~1 900 states, 2 s
      Sync_x_memo.cfg     EXPECTED VIOLATION: verdict remembered by claimed hash: StoredOnlyVerified fails, 26-step
                          counterexample (block verified, dropped by the tip -> catch-up stream reset, fetched again,
                          answered with altered content under the honest header, stored)  ~49 000 states, 6 s
-     (adding EmptyDiff / the forged kinds / memo / tainted left the distinct-state counts of the repaired
-      configurations unchanged: the three forged kinds and the two kinds of corrupted copy lead to the same
-      successor state while both mechanisms are in place)
+     Sync_x_known.cfg    EXPECTED VIOLATION: the fetch layer remembers the class hashes it found in the local state
+                         (RememberKnown): StoredClassesComplete fails, 43-step counterexample (class declared by block 2,
+                         found in the state when block 3 is fetched, reorg below 2, block 2 reverted, block 4 - which
+                         mentions the class - fetched without it and stored)             ~36 500 states, 11 s
+     Sync_x_known_sierra.cfg  the same with a Sierra class: Store refuses block 4 for ever; EventuallyConverges fails
+                         (lasso through Restart)                                        ~38 800 states, 24 s
+     Sync_sim.cfg        behaviour generation for the recorder (SyncMBT.tla, -simulate): the code as it is, chain <= 7,
+                         3 source steps, random class content per behaviour
+     (EmptyDiff / the forged kinds / memo / tainted left the distinct-state counts of the repaired configurations
+      unchanged; the class dimension adds 5-35 %: NewClasses of an answer depends on what the local state held when it
+      was delivered)
      Sync_big.cfg        repaired, chain <= 4, 2 source steps, 2 faults, safety (optional; 10.5 M states before the
-                         wrong-height / forged answers were added, not re-measured) *)
+                         wrong-height / forged answers and classes were added, not re-measured) *)
 EXTENDS Sync
 =============================================================================
